@@ -10,6 +10,8 @@ O(k, v) == Obj(k, v)
 JsonBodies == { O(<<"q">>, <<Num(4)>>), O(<<"q">>, <<S(<<"x">>)>>), O(<<"q", "w">>, <<Num(4), S(<<"s">>)>>),
                 O(<<"q", "r">>, <<Num(4), S(<<"s">>)>>), O(<<>>, <<>>), Arr(<<Num(4)>>) }
 TextBodies == { S(<<"a">>), S(<<"a", "b", "c">>) }
+(* bytes that are not the encoding of any JSON value *)
+RawBodies == { [t |-> "raw", s |-> "{\"q\":"] }
 
 CTs == { [absent |-> TRUE], Json, MT("application", "json", "charset=utf-8"), MT("text", "plain", "") }
 
@@ -21,11 +23,13 @@ Init ==
                    includeStatus |-> inc, bodyKey |-> bk]
    \/ \E hd \in {"none", "intReq", "intOpt", "arrOpt", "arrMax1", "contentReq", "contentOpt"}, hv \in {"absent", "5", "abc", "1,2"},
          d \in {"none", "json", "jsonNoSchema", "text", "wild", "jsonAndText"}, ct \in CTs,
-         b \in JsonBodies \cup TextBodies, xb \in BOOLEAN, xw \in BOOLEAN, mu \in BOOLEAN :
+         b \in JsonBodies \cup TextBodies \cup RawBodies, xb \in BOOLEAN, xw \in BOOLEAN, mu \in BOOLEAN, rq \in {"qw", "qrw"} :
         /\ (hd = "none" => hv = "absent")
         /\ (b \in TextBodies <=> ("ty" \in DOMAIN ct /\ ct.ty = "text"))   \* the body is written in the content type it claims
         /\ ("absent" \in DOMAIN ct => b = O(<<"q">>, <<Num(4)>>))
-        /\ case = [part |-> "def", hd |-> hd, hv |-> hv, decl |-> d, ct |-> ct,
+        /\ (rq = "qrw" => (hd = "none" /\ d \in {"json", "wild"}))        \* the second schema only where the body schema is what decides
+        /\ (b \in RawBodies => (hd = "none" /\ "ty" \in DOMAIN ct /\ ct.ty = "application"))
+        /\ case = [part |-> "def", hd |-> hd, hv |-> hv, decl |-> d, ct |-> ct, req |-> rq,
                    ctText |-> (IF "absent" \in DOMAIN ct THEN "" ELSE Render(ct)), body |-> b,
                    excludeBody |-> xb, excludeWO |-> xw, multi |-> mu]
 Next == UNCHANGED case
